@@ -59,7 +59,8 @@ pub fn gen_op(r: &mut Rng, kind: OpKind) -> Op {
     let args: Vec<u32> = match kind {
         Generate => vec![len_idx(r), r.below(3)],
         DefaultArr | BoxedGenerate | DefaultBoxed => vec![len_idx(r)],
-        CloneArr | NativeRoundtrip | TupleRoundtrip | IntoIter | ItLen | ItClone | ItCount | ItDebug | ArrBox | Unbox | BxClone | BxIntoIter | Flatten | SerRecord => vec![slot(r)],
+        CloneArr | NativeRoundtrip | TupleRoundtrip | IntoIter | ItLen | ItClone | ItCount | ItDebug | ArrBox | Unbox | BxClone | BxIntoIter | Flatten => vec![slot(r)],
+        SerRecord => vec![slot(r), r.below(2)],
         Collect => {
             // honest: count == N, truthful hint, fused; entry any of the six
             let li = len_idx(r);
@@ -654,7 +655,7 @@ pub fn gen_trace(prop: Prop, seed: u64) -> Trace {
                         if r.chance(3, 4) {
                             op.args[1] = match r.below(6) { 0 | 1 => nn, 2 => nn + 1, 3 => nn.saturating_sub(1), _ => r.below(nn + 3) };
                             op.args[2] = r.below(5) + 5 * (r.chance(1, 4) as u32);
-                            op.args[3] = r.below(4);
+                            op.args[3] = r.below(4) + 4 * (r.chance(1, 3) as u32);
                             op.args[4] = if r.chance(1, 3) { 1 + r.below(op.args[1] + 1) } else { 0 };
                         }
                     }
